@@ -178,8 +178,8 @@ impl Gen {
             0..=7 => {
                 let k = 1 + self.r(2);
                 // inputs are mostly segment elements; sometimes a structure or a syllable (followed / preceded by others)
-                let ins: Vec<String> = (0..k).map(|_| match self.r(12) { 0 => self.struct_el(p), 1 => self.syll_el(), _ => self.seg_el(p) }).collect();
-                let outs: Vec<String> = ins.iter().map(|i| if i.starts_with('{') { let n = i.matches(',').count() + 1; format!("{{{}}}", (0..n).map(|_| self.seg()).collect::<Vec<_>>().join(", ")) } else { self.out_el(p) }).collect();
+                let ins: Vec<String> = (0..k).map(|_| match self.r(12) { 0 => self.struct_el(p), 1 => self.syll_el(), 2 if p == Profile::Full => "$".to_string(), _ => self.seg_el(p) }).collect();
+                let outs: Vec<String> = ins.iter().map(|i| if i == "$" { "$".to_string() } else if i.starts_with('{') { let n = i.matches(',').count() + 1; format!("{{{}}}", (0..n).map(|_| self.seg()).collect::<Vec<_>>().join(", ")) } else { self.out_el(p) }).collect();
                 let mut o = outs.join(" ");
                 // occasionally uneven lengths (sub-insert / sub-delete)
                 if self.ch(1, 8) { o.push(' '); o.push_str(&self.seg()); }
